@@ -43,7 +43,9 @@ def _gen_seq(rng, tier):
     cap = rng.choice([0, 1, 1, 2, 2, 3])
     nprod = rng.randint(1, 3)
     n = rng.randint(4, 28 if tier == "quick" else 60)
-    case = [[1, policy, cap, nprod]]
+    # further idle push sources in the same root graph (they share the engine's one pending flag)
+    extra = rng.choice([0, 0, 1, 1, 2])
+    case = [[1, policy, cap, nprod, 0, extra]]
     v = [0]
 
     def val():
@@ -120,7 +122,8 @@ def _gen_stress(rng, tier):
         clock = rng.choice([0, 0, 0, 1000, 50000, -1])
     nmsg = max(1, total // nprod)
     stop_mode = 1 if rng.random() < 0.2 else 0
-    return [[2, policy, cap, nprod, nmsg, block, pace, stop_mode, rng.randint(1, 1 << 30), clock]]
+    extra = rng.choice([0, 0, 1, 2])
+    return [[2, policy, cap, nprod, nmsg, block, pace, stop_mode, rng.randint(1, 1 << 30), clock, extra]]
 
 
 def _gen_dict(rng, tier):
@@ -596,6 +599,8 @@ def stats(case, impl_out):
         add("dict_cycles_without_visible_delivery", sum(1 for i, l in enumerate(impl_out) if l[0] == 3 and len(l) > 3 and l[3] and (i == 0 or impl_out[i - 1][0] != 5)))
     elif case[0][0] == 1:
         add("seq_cases")
+        if len(case[0]) > 5 and case[0][5] > 0:
+            add("seq_cases_with_extra_push_sources")
         add("seq_policy_" + pol)
         add("seq_cap_%d" % case[0][2])
         add("seq_ops", len(case) - 1)
@@ -624,6 +629,8 @@ def stats(case, impl_out):
                 add("seq_stale_handle_sends")
     else:
         add("stress_cases")
+        if len(case[0]) > 10 and case[0][10] > 0:
+            add("stress_cases_with_extra_push_sources")
         add("stress_policy_" + pol)
         add("stress_producers", case[0][3])
         h = _parse_hist(impl_out)
@@ -647,7 +654,9 @@ def shrink(case):
         for i in range(len(case) - 1, 0, -1):
             yield case[:i] + case[i + 1:]
         if case[0][3] > 1:
-            yield [case[0][:3] + [case[0][3] - 1]] + case[1:]
+            yield [case[0][:3] + [case[0][3] - 1] + case[0][4:]] + case[1:]
+        if len(case[0]) > 5 and case[0][5] > 0:
+            yield [case[0][:5] + [0]] + case[1:]
     elif case[0][0] == 2:
         h = list(case[0])
         if h[4] > 1:
